@@ -10,6 +10,8 @@ mod gen2;
 mod hash;
 mod interp;
 mod prng;
+mod pt;
+mod tracer;
 mod report;
 mod sysim;
 mod wk;
@@ -106,7 +108,7 @@ fn main() {
         "check" => report::orchestrate(&args),
         "lane" => report::lane_main(&args),
         "replay" => report::replay_main(&args),
-        "gen" => report::gen_main(&args),
+        "gen" | "trace" => report::gen_main(&args),
         _ => {
             eprintln!("usage: cv-sim check|lane|replay ...");
             2
